@@ -316,13 +316,21 @@ def symtab_case(draw):
 
 
 def check_symtab(case):
-    table = {}
+    table = {}  # the caller's own dict object, initially empty, reused for every call (not the returned one)
     seen = {}
     for idx, c in enumerate(case["calls"]):
         try:
-            expr, f_ca, table = convert_s2c(c, table)
+            expr, f_ca, returned = convert_s2c(c, table)
         except NotImplementedError:
             require(False)
+        if sorted(returned) != sorted(table):
+            raise Violation("call %d: the symbol table passed by the caller holds %s but the returned table holds %s "
+                            "(the caller's table is not the one being filled)" % (idx, sorted(table), sorted(returned)),
+                            calls=[cc["tree"] for cc in case["calls"]])
+        for nm_ in returned:
+            if not bool(ca.is_equal(returned[nm_], table[nm_])):
+                raise Violation("call %d: symbol %r differs between the caller's table and the returned table" % (idx, nm_),
+                                calls=[cc["tree"] for cc in case["calls"]])
         for name, var in table.items():
             if name in seen and not bool(ca.is_equal(seen[name], var)):
                 raise Violation("symbol %r maps to a different CasADi variable in call %d than before (shared symbol table)" % (name, idx),
@@ -572,6 +580,46 @@ def check_c2s_unsupported(case):
         raise Violation("casadi_to_sympy converted %s to %s, which evaluates to %s instead of %s" % (e, r, v, want))
 
 
+GRID_A = [k / 2.0 for k in range(-13, 14)]
+GRID_B = [1.0, -1.0, 2.0, -2.0, 0.5, -0.5, 3.0, -3.0, 1.5]
+TIE_OPS = {
+    "fmod": lambda x, y: ca.fmod(x, y), "remainder": lambda x, y: ca.remainder(x, y),
+    "floor_div": lambda x, y: ca.floor(x / y), "ceil_div": lambda x, y: ca.ceil(x / y),
+    "lt": lambda x, y: ca.if_else(x < y, 1.0, 2.0), "le": lambda x, y: ca.if_else(x <= y, 1.0, 2.0),
+    "eq": lambda x, y: ca.if_else(ca.eq(x, y), 1.0, 2.0), "ne": lambda x, y: ca.if_else(ca.ne(x, y), 1.0, 2.0),
+    "fmin": lambda x, y: ca.fmin(x, y), "fmax": lambda x, y: ca.fmax(x, y), "sign_diff": lambda x, y: ca.sign(x - y),
+    "fabs_diff": lambda x, y: ca.fabs(x - y), "mod_chain": lambda x, y: ca.fmod(ca.remainder(x, y) + x, y),
+}
+
+
+def check_ties(case):
+    """Finite domain, enumerated completely: a discontinuous operator applied to every (a, b) of an exact grid."""
+    s = sym()
+    x, y = ca.SX.sym("x"), ca.SX.sym("y")
+    e = TIE_OPS[case["op"]](x, y)
+    F = ca.Function("F", [x, y], [e])
+    syms = {}
+    try:
+        with cy.quiet():
+            se = s.casadi_to_sympy(e, syms)
+    except Exception:
+        return
+    smap = {str(k): v for k, v in syms.items()}
+    n = 0
+    for a in GRID_A:
+        for b in GRID_B:
+            g = float(F(a, b))
+            if not math.isfinite(g):
+                continue
+            v = sympy_eval(se, smap, {"x": a, "y": b})
+            vv = (1.0 if v else 0.0) if isinstance(v, bool) else as_real(v)
+            n += 1
+            if vv is None or abs(vv - g) > 1e-12:
+                raise Violation("casadi_to_sympy changed the value of %s at (x, y) = (%g, %g): CasADi %.15g, SymPy %s = %s" % (
+                    e, a, b, g, str(se)[:160], vv), op=case["op"], x=a, y=b)
+    case["_n"] = n
+
+
 def build(tier):
     req_s2c = ["op:" + o for o in ("reuse", "add", "mul", "ipow", "sqrtp", "rpow", "fpow", "sin", "cos", "tan", "atan", "user", "float", "rat", "int")]
     req_c2s = ["op:" + o for o in NUM1 + NUM2 + ["cpow", "if_else", "if_else_zero", "lt", "le", "eq", "ne", "and", "or", "not"]]
@@ -587,6 +635,8 @@ def build(tier):
         Cell("c2s/value", c2s_case("num"), check_c2s, c2s_nontrivial, c2s_classify, quick=900, thorough=30000),
         Cell("c2s/boolean", c2s_case("bool"), check_c2s, c2s_nontrivial, c2s_classify, quick=300, thorough=8000),
         Cell("c2s/matrix", c2s_case("mat"), check_c2s, c2s_nontrivial, c2s_classify, quick=150, thorough=4000),
+        Cell("c2s/ties_exhaustive", st.sampled_from(sorted(TIE_OPS)).map(lambda o: {"op": o}), check_ties, lambda c: True,
+             lambda c: ["op:" + c["op"]], quick=0, thorough=0, shrink=False, examples=[{"op": o} for o in sorted(TIE_OPS)]),
         Cell("c2s/unsupported", st.sampled_from(["constpow", "copysign", "log1p", "hypot"]).map(lambda o: {"op": o}),
              check_c2s_unsupported, lambda c: True, lambda c: [c["op"]], quick=8, thorough=8, shrink=False),
     ]
